@@ -209,6 +209,20 @@ func init() {
 		x.cronExprs[sched.Id.S] = x.scalar(st, c.args[0])
 		return x.finish(st, fr, c, VTuple{[]Value{sched, x.freshErr(st, "cron.parse.err", Not(fail))}})
 	})
+	reg("github.com/robfig/cron/v3.NewParser", "cron.NewParser(options): an opaque parser value", func(x *Exec, st *State, fr *Frame, c *callCtx) bool {
+		return x.finish(st, fr, c, x.symbolicResult(st, c))
+	})
+	reg("(github.com/robfig/cron/v3.Parser).Parse", "parser.Parse(expr): may fail; on success a non-nil schedule that is the parse of exactly expr (the spec builtin cronexpr(schedule) names the expression)", func(x *Exec, st *State, fr *Frame, c *callCtx) bool {
+		tup := c.ret.Type().(*types.Tuple)
+		fail := x.sym.Fresh("cron.parse.fails", SBool)
+		x.callCounter++
+		sched := VIface{Nil: fail, Typ: tup.At(0).Type(), Id: x.sym.Fresh("cron.schedule.id", SErr)}
+		if x.cronExprs == nil {
+			x.cronExprs = map[string]Term{}
+		}
+		x.cronExprs[sched.Id.S] = x.scalar(st, c.args[1])
+		return x.finish(st, fr, c, VTuple{[]Value{sched, x.freshErr(st, "cron.parse.err", Not(fail))}})
+	})
 	// go-playground/validator: a field error describes one failed binding rule with strings
 	for _, m := range []string{"Field", "Tag", "Param", "Error", "Namespace", "StructField", "ActualTag"} {
 		reg("(github.com/go-playground/validator/v10.FieldError)."+m, "an arbitrary string describing the failed rule", func(x *Exec, st *State, fr *Frame, c *callCtx) bool {
